@@ -264,7 +264,7 @@ def check_valid(ctx: Ctx, fgcol, styles, pos, bg, depth):
 
 
 MALFORMED_ALPHA = ["#", "g", "h", "0", "f", "x", ",", " ", "-", "+", "_", "1"]  # int() accepts signs, blanks and underscores
-LONG_ALPHA = {"quick": ["0", "f", "-", "x"], "thorough": ["0", "f", "-", "+", "_", " ", "x", "\u0663"]}  # '#' + six of these
+LONG_ALPHA = {"quick": ["0", "f", "-", "x", "\u0663"], "thorough": ["0", "f", "-", "+", "_", " ", "x", "\u0663"]}  # '#' + six of these
 MUST_REJECT = [
     "g#12345", "h123456", "g123456", "#gggggg", "#ggg", "h256", "h-1", "g101", "g#100", "g#gg", "bold,bold", "underline,bold,underline", "dark red,dark blue",
     "h1,h2", "#fff,black", "nonsense", "dark  red", "darkred", "h", "g", "#", "g#", "#12345", "#1234567", "gx", "hx", "#12", "h1000",
